@@ -246,6 +246,31 @@ theorem exceptHandler_typed_as (f sc : Nat) (c s0 a av st : Node) (t : Tok) (ss 
   simp [errType, hst, ha, hac, hat, tokOf, bindErrThen, child]
   cases e <;> rfl
 
+/-- `except "T1", "T2" v { block }` (strings, an identifier, the block): the identifier is skipped — nothing is
+    bound; the clause handles the error iff one of the evaluated type strings equals its type -/
+theorem exceptHandler_typed_ident (f sc : Nat) (c s0 a st : Node) (ss : List Node) (e : Sig)
+    (hc : c.children = ((s0 :: ss) ++ [a, st]).map some) (hs : ∀ x ∈ s0 :: ss, x.name = "string")
+    (ha : a.name = "identifier") (hst : st.name = "statements") :
+    exceptHandler (f+1) sc c e = (do
+      if ← typedMatch (errType e) bytesToString ((s0 :: ss).map fun ch => eval f sc ch) then
+        let evs ← newChild sc (← scopeName c)
+        let _ ← eval f evs st
+        pure (some Val.null)
+      else pure none) := by
+  have h0 : s0.name = "string" := hs s0 (by simp)
+  have htd := takeWhile_strs (s0 :: ss) [a, st] hs (by intro x hx; cases hx; simp [ha])
+  have hk : ∀ g : Option Node → M Node, (∀ x, g (some x) = pure x) → c.children.mapM g = pure ((s0 :: ss) ++ [a, st]) := by
+    intro g hg; rw [hc]; exact mapM_some_pure g hg _
+  have hlen : (c.children.length == 1) = false := by simp [hc]
+  have hne : (s0.name != "string") = false := by simp [h0]
+  have h0c : c.children[0]? = some (some s0) := by simp [hc]
+  rw [exceptHandler.eq_def]
+  simp only [hlen, child, h0c, pure_bind, hne, Bool.and_false]
+  rw [hk _ (fun _ => rfl)]
+  simp only [pure_bind, htd.1, htd.2]
+  simp [errType, hst, ha]
+  cases e <;> rfl
+
 /-! ### loops -/
 
 theorem eval_loop (f sc : Nat) (n : Node) (h : n.name = "loop") : eval (f+1) sc n = evalLoop f sc n := by
